@@ -357,12 +357,15 @@ func scanIndexFile(ctx context.Context, basePath string, fileNum uint32, buckets
 	var pos int64
 	var i int
 	for {
-		if _, err = file.ReadAt(sizeBuffer, pos); err != nil {
-			if err == io.EOF {
+		if n, err := file.ReadAt(sizeBuffer, pos); err != nil {
+			if err == io.EOF && n == 0 {
 				// Finished reading entire index.
 				break
 			}
-			if err == io.ErrUnexpectedEOF {
+			// ReadAt reports io.EOF, not io.ErrUnexpectedEOF, when fewer bytes
+			// than requested are available, so a short read of the size is an
+			// incomplete record.
+			if err == io.EOF || err == io.ErrUnexpectedEOF {
 				log.Errorw("Unexpected EOF scanning index", "file", indexPath)
 				file.Close()
 				// Cut off incomplete data
